@@ -35,6 +35,7 @@ def jobs(tier):
         mk('C11', 'errors/awaited_child', S.errors('ValueError', 'awaited_child'), witnesses=W),
         mk('C11', 'errors/ff_child', S.errors('Custom', 'ff_child'), witnesses=W),
         mk('C11', 'errors/forwarded', fw_error(), witnesses=W),
+        mk('C11', 'par_parent_serial_child', S.par_parent_serial_child(), witnesses=W),
     ]
     if tier == 'thorough':
         for kind in ('ValueError', 'Custom', 'TimeoutError'):
